@@ -99,7 +99,9 @@ func init() {
 				d = 5
 			}
 			u = append(u, c01Units(C01Arg{DFSArg: DFSArg{Kind: "eventlog", Writers: 1, Depth: d + 1, Alpha: "one"}, Observer: true, Routes: []string{"sync", "topic"}, Reload: true, Snapshot: true}, 8)...)
-			u = append(u, c01Units(C01Arg{DFSArg: DFSArg{Kind: "eventlog", Writers: 2, Depth: d + 1, Alpha: "one", Dup: true}}, 16)...)
+			// deep enough for "two writers write twice each concurrently, merge, write again" (log length two
+			// above the largest clock)
+			u = append(u, c01Units(C01Arg{DFSArg: DFSArg{Kind: "eventlog", Writers: 2, Depth: d + 3, Alpha: "one", SD: 3}}, 16)...)
 			u = append(u, c01Units(C01Arg{DFSArg: DFSArg{Kind: "eventlog", Writers: 2, Depth: d, Alpha: "one"}, Observer: true, Routes: []string{"sync", "direct"}, Reload: true, Snapshot: true}, 16)...)
 			u = append(u, c01Units(C01Arg{DFSArg: DFSArg{Kind: "keyvalue", Writers: 3, Depth: d - 1, Alpha: "tiny"}, Reload: true}, 16)...)
 			return u
